@@ -106,6 +106,32 @@ class SymEnv:
     def is_real(self, x):
         return isinstance(x, (SReal, float, int)) and not isinstance(x, bool)
 
+    def sympy_call(self, src, names):
+        """run the call on the REAL code with SymPy symbols (native process) and translate the returned expressions
+        atom for atom into terms of this context (sin -> circle atoms, sqrt -> root atoms, Symbol -> the input atom)"""
+        from .numeric_types import SymResult
+        r = native.sympy_call(src, names)
+        if r is None:
+            raise sc.EngineError('no answer from the native SymPy run')
+        if r['status'] != 'ok':
+            return SymResult(raised=r.get('exc'), msg=r.get('msg'))
+        import sympy
+        vals, floats = [], []
+        for v in r['values']:
+            if 'srepr' in v:
+                e = sympy.sympify(v['srepr'])
+                floats.append(bool(e.atoms(sympy.Float)))
+                vals.append(_sympy_to_sreal(e))
+            elif 'int' in v:
+                vals.append(SReal.lift(v['int'])); floats.append(False)
+            elif 'bool' in v:
+                vals.append(v['bool']); floats.append(False)
+            elif 'float' in v:
+                vals.append(SReal.lift(v['float'])); floats.append(v['float'] not in (0.0, 1.0))
+            else:
+                raise sc.Unsupported('SymPy result element ' + str(v))
+        return SymResult(values=vals, float_flags=floats, sig=r['sig'])
+
     def sos(self, *terms):
         """lemma hint, self-proving: the sum of the squares of the given terms is non-negative; the engine
         computes that polynomial itself and records  P >= 0  for interval reasoning"""
@@ -131,6 +157,55 @@ class SymEnv:
     def at_zero(self, x, th):
         """value at th = 0"""
         return self._map(lambda e: sc.subs_zero(e, th), x)
+
+
+def _sympy_to_sreal(e):
+    import sympy
+    if isinstance(e, sympy.Symbol):
+        if e.name not in sc.CTX.defs:
+            raise sc.EngineError('SymPy result mentions an undeclared symbol ' + e.name)
+        return SReal.var(e.name)
+    if isinstance(e, sympy.Integer):
+        return SReal.lift(int(e))
+    if isinstance(e, sympy.Rational):
+        return SReal.lift(Fr(int(e.p), int(e.q)))
+    if isinstance(e, sympy.Float):
+        # math.pi is the constant pi in this model (assumption A1): a Float that is a simple rational multiple of
+        # float(pi) is that multiple of the pi atom, exactly as on the numeric path
+        v = float(e)
+        if v != 0:
+            fr = Fr(v / _math.pi).limit_denominator(720)
+            if fr != 0 and abs(float(fr) * _math.pi - v) <= 4e-16 * abs(v):
+                return sc.pi() * fr
+        return SReal.lift(v)
+    if e is sympy.pi:
+        return sc.pi()
+    if isinstance(e, sympy.Add):
+        t = SReal.lift(0)
+        for a in e.args:
+            t = t + _sympy_to_sreal(a)
+        return t
+    if isinstance(e, sympy.Mul):
+        t = SReal.lift(1)
+        for a in e.args:
+            t = t * _sympy_to_sreal(a)
+        return t
+    if isinstance(e, sympy.Pow):
+        b_, x = e.args
+        if isinstance(x, sympy.Integer):
+            return _sympy_to_sreal(b_) ** int(x)
+        if x == sympy.Rational(1, 2):
+            return sc.sqrt(_sympy_to_sreal(b_))
+        if x == sympy.Rational(-1, 2):
+            return 1 / sc.sqrt(_sympy_to_sreal(b_))
+        raise sc.Unsupported('SymPy power ' + str(e))
+    if isinstance(e, sympy.sin):
+        return sc.sin(_sympy_to_sreal(e.args[0]))
+    if isinstance(e, sympy.cos):
+        return sc.cos(_sympy_to_sreal(e.args[0]))
+    if isinstance(e, sympy.Abs):
+        return sc.sabs(_sympy_to_sreal(e.args[0]))
+    raise sc.Unsupported('SymPy node %s' % type(e).__name__)
 
 
 _GB_CACHE = {}
@@ -316,6 +391,20 @@ class Oblig:
         self.secs, self.detail, self.values = secs, detail, values
 
 
+class _Stub:
+    def __init__(self, holder, name, fn):
+        self.holder, self.name, self.fn = holder, name, fn
+
+    def __enter__(self):
+        self.old = getattr(self.holder, self.name)
+        setattr(self.holder, self.name, self.fn)
+        return self
+
+    def __exit__(self, *a):
+        setattr(self.holder, self.name, self.old)
+        return False
+
+
 class SymChecker:
     def __init__(self, env, job):
         self.env = env
@@ -473,6 +562,11 @@ class SymChecker:
     def note(self, *a):
         pass
 
+    def stub(self, holder, name, fn):
+        """context manager: replace holder.name by fn while the block runs (the callee's CONTRACT stands in for its
+        body; the contract that justifies fn must be named in the contract's assumptions)"""
+        return _Stub(holder, name, fn)
+
     # ---- discharge --------------------------------------------------------------------------
     def _add(self, o):
         self.obligs.append(o)
@@ -595,6 +689,16 @@ class SymChecker:
             else:
                 self._concrete_fail('%s[%d]' % (name, idx) if idx else name, 'constant residual %s' % float(r.const()))
             return
+        cv = sc.const_value(r)
+        bv = sc.const_value(bound)
+        if cv is not None and bv is not None:
+            # a residual over constant atoms only (sqrt(2), pi, ...): evaluated numerically, with a safety margin
+            if abs(cv) <= bv * (1 - 1e-6) - 1e-15 or (abs(cv) < 1e-13 and bv == 0):
+                self._add(Oblig(name, idx, 'proved', 'constant-eval', time.time() - t))
+                return
+            if abs(cv) > bv * (1 + 1e-6) + 1e-12:
+                self._concrete_fail('%s[%d]' % (name, idx) if idx else name, 'constant residual %.3g exceeds %.3g' % (cv, bv))
+                return
         if _abs_cases_zero(r):
             self._add(Oblig(name, idx, 'proved', 'pnf-cases', time.time() - t))
             return
